@@ -369,7 +369,7 @@ def _strip(ob):
     return ob
 
 
-def _extreme_witnesses(ctx, inp, path, dbl, limit=6):
+def _extreme_witnesses(ctx, inp, path, dbl, limit=16):
     """a few more witnesses of the path: each numeric input pinned to the ends (and the middle) of its window, when feasible"""
     out = []
     for name, sp in inp.spec.items():
@@ -379,7 +379,9 @@ def _extreme_witnesses(ctx, inp, path, dbl, limit=6):
         num = v.num if _isinstance(v, T.SFloat) else v
         if not _isinstance(num, T.SInt):
             continue
-        for val in (sp['hi'], sp['lo'], sp['hi'] // 2 + 1, sp['lo'] // 2 - 1):
+        p2 = [(1 << (abs(b).bit_length() - 1)) * (1 if b > 0 else -1) for b in (sp['hi'], sp['lo']) if b]
+        p2 += [q // 16 * k for q in p2 for k in (8, 12, 10, 14, 9, 11, 13, 15, 5, 7)]      # few significant bits: representable in narrow float carriers too
+        for val in [sp['hi'], sp['lo']] + p2 + [sp['hi'] // 2 + 1, sp['lo'] // 2 - 1]:
             c = T.icmp(num, val, '==')
             if c is False:
                 continue
